@@ -325,6 +325,7 @@ pub fn enumerate(args: &[String]) -> i32 {
     }
     let mut out = util::open_out(args);
     let (mut vectors, mut mismatches, mut accepted, mut rejected, mut lines) = (0u64, 0u64, 0u64, 0u64, 0u64);
+    let mut accepted_with_options = 0u64;
     let mut err_hist: HashMap<&'static str, u64> = HashMap::new();
     let mut max_opts = 0usize;
     let mut samples: Vec<Value> = vec![];
@@ -358,6 +359,9 @@ pub fn enumerate(args: &[String]) -> i32 {
             let o = observe(&specs, mode, &argv);
             if o.ok {
                 accepted += 1;
+                if !o.opts.is_empty() {
+                    accepted_with_options += 1;
+                }
                 max_opts = max_opts.max(o.opts.len());
             } else {
                 rejected += 1;
@@ -369,14 +373,14 @@ pub fn enumerate(args: &[String]) -> i32 {
                     writeln!(out, "{}", json!({"mismatch": true, "t": t, "m": m, "specs": tspecs_to_json(tab),
                         "argv": argv, "expected": code, "obs": obs_to_json(&o)})).unwrap();
                 }
-            } else if samples.len() < 3 && vectors % 7919 == 1 && argv.len() >= 3 {
+            } else if samples.len() < 3 && vectors % 1009 == 1 && argv.len() >= 3 && (o.opts.len() >= 2 || !o.ok) {
                 samples.push(json!({"t": t, "m": m, "specs": tspecs_to_json(tab), "argv": argv,
                                     "expected": code, "obs": obs_to_json(&o)}));
             }
         }
     }
     writeln!(out, "{}", json!({"summary": true, "lines": lines, "vectors": vectors, "mismatches": mismatches,
-        "accepted": accepted, "rejected": rejected, "tables": tables.len(), "errors": err_hist,
+        "accepted": accepted, "accepted_with_options": accepted_with_options, "rejected": rejected, "tables": tables.len(), "errors": err_hist,
         "max_options": max_opts, "samples": samples})).unwrap();
     0
 }
